@@ -592,6 +592,9 @@ func run(t *rapid.T, rec *ev.Recorder, engineMode bool) {
 	w := &world{t: t, ep: &stor.Epoch{}, objs: map[id]*mobj{}, pre: map[id]bool{}, rmCnr: map[int]bool{}}
 	w.batch = rapid.IntRange(1, 5).Draw(t, "batch")
 	w.wc = rapid.IntRange(0, 3).Draw(t, "write-cache") == 0
+	if os.Getenv("C44_FORCE_WC") != "" { // experiments only
+		w.wc = true
+	}
 	fsto := []fstree.Option{fstree.WithCombinedWriteInterval(200_000)} // 0.2 ms
 	if engineMode {
 		cfg := func(n int) stor.ShardCfg {
